@@ -261,6 +261,20 @@ def r_numbering(repo, rep, R='R7.3'):
                             txt = src(n)
                             is_sink = (isinstance(n.func, ast.Attribute) and n.func.attr == 'format' and len(n.args) >= 2) or ("'sentence'" in txt and src(n.func).endswith('.set')) or \
                                 (src_ref(n.func) in ('_prolog_string',)) or (src(n.func).endswith('.write') and 'ccg(' in txt)
+                            if not is_sink and isinstance(n.func, ast.Name):
+                                # ... or hands the numbers to a helper of the module that writes them as the record's `sentence` attribute
+                                h_ = mod.get(n.func.id, required=False)
+                                if isinstance(h_, ast.FunctionDef) and h_ is not fn:
+                                    hp_ = [a_.arg for a_ in h_.args.args]
+                                    for c2 in ast.walk(h_):
+                                        if isinstance(c2, ast.Call) and isinstance(c2.func, ast.Attribute) and c2.func.attr == 'set' and len(c2.args) == 2 \
+                                                and isinstance(c2.args[0], ast.Constant) and c2.args[0].value == 'sentence':
+                                            used = {x.id for x in ast.walk(c2.args[1]) if isinstance(x, ast.Name)} & set(hp_)
+                                            for pn in used:
+                                                k_ = hp_.index(pn)
+                                                if k_ < len(n.args):
+                                                    names = {x.id for x in ast.walk(n.args[k_]) if isinstance(x, ast.Name)}
+                                                    uses.append((idx in names, False, txt[:60]))
                             if is_sink:
                                 names = {x.id for x in ast.walk(n) if isinstance(x, ast.Name)}
                                 uses.append((idx in names, bool(inner_idx & names) and idx not in names, txt[:60]))
